@@ -425,7 +425,7 @@ func vfRandName(r *rand.Rand, n int) []byte {
 	for i := range b {
 		switch r.Intn(4) {
 		case 0:
-			b[i] = ">> \t@+|a"[r.Intn(8)]
+			b[i] = ">> \t@+|a%"[r.Intn(9)]
 		default:
 			c := byte(r.Intn(256))
 			for c == '\r' || c == '\n' {
@@ -441,7 +441,7 @@ func vfRandSeq(r *rand.Rand, n int) []byte {
 	b := make([]byte, n)
 	for i := range b {
 		if r.Intn(2) == 0 {
-			b[i] = "ACGTNacgt-*"[r.Intn(11)]
+			b[i] = "ACGTNacgt-*%"[r.Intn(12)]
 			continue
 		}
 		c := byte(r.Intn(256))
@@ -638,7 +638,7 @@ var vfClauses = []vrClause{
 		Prop: "C01", Name: "roundtrip",
 		Bound: "exhaustive: all lists of <=2 (thorough <=3) records with name in {'>','x'}^<=2 and seq in A^0..3; " +
 			"every single record with seq length 0..330 (thorough 0..2000) and 65535,65536,65537,70000 (thorough also 1 MiB, 3 MiB+7); " +
-			"one file holding the lengths 0,1,2,79,80,81,159,160,161,239,240,241; then random lists of <=5 records over all bytes of the domain until the budget ends",
+			"one file holding the lengths 0,1,2,79,80,81,159,160,161,239,240,241; the texts %, 50%, %d, %s%s, 100%%, %!, a%vb as name, as sequence, and as name with the text repeated 30 times as sequence; then random lists of <=5 records over all bytes of the domain until the budget ends",
 		Rule: "Write to a buffer has err==nil, MarshalText bytes == Write bytes, output = '>'name LF then LF-terminated lines of <=80 chars concatenating to seq; " +
 			"Reader over the concatenation yields exactly the written names/sequences in order and no error",
 		Gen: vfGenRoundtrip,
@@ -646,7 +646,8 @@ var vfClauses = []vrClause{
 	},
 	{
 		Prop: "C01", Name: "layout",
-		Bound: "exhaustive: single records (name '' or 'n>') with seq length 0..6 (thorough 0..9) at every composition of the length into line widths x blank in {none,[1],[0,2]} x LF/CRLF x final newline or not; " +
+		Bound: "exhaustive: a single record (name 'n') of every seq length 3900..4100 and 7900..8100 in 80-column CRLF lines with final newline (texts crossing one and two 4096-byte buffer fills at every alignment of the CRs); " +
+			"single records (name '' or 'n>') with seq length 0..6 (thorough 0..9) at every composition of the length into line widths x blank in {none,[1],[0,2]} x LF/CRLF x final newline or not; " +
 			"all pairs of 5 small records at widths [1],[2],[80]; then random records/widths/blank counts (incl. one 70000-char single line) until the budget ends",
 		Rule: "Reader over the re-laid-out text (widths cycled, blank lines only between lines, CRLF, optional final newline) yields exactly the records, no error",
 		Gen:  vfGenLayout,
@@ -672,8 +673,8 @@ var vfClauses = []vrClause{
 	},
 	{
 		Prop: "C06", Name: "crlf",
-		Bound: "exhaustive: all lists of <=2 records with name in {'>','x'}^<=2, seq in A^0..3; single records of every length 0..170; then random record lists",
-		Rule:  "the reference encoding with LF and the same text with every LF replaced by CRLF decode to the same item sequence",
+		Bound: "exhaustive: all lists of <=2 records with name in {'>','x'}^<=2, seq in A^0..3; single records of every length 0..170 and (name 'n') 3900..4100, 7900..8100 (CRLF texts crossing one and two 4096-byte buffer fills at every alignment); 4 small lists x 6 blank-line patterns (after every line, after some lines, trailing); then random record lists, a third of them with random blank-line patterns",
+		Rule:  "the reference encoding with LF (with optional \"blank\": blank[i mod len] extra empty lines after its i-th line, also after the last) and the same text with every LF replaced by CRLF decode to the same item sequence",
 		Gen:   vfGenCRLF,
 		Run:   vfRunCRLF,
 	},
@@ -694,10 +695,11 @@ var vfClauses = []vrClause{
 	},
 	{
 		Prop: "C07", Name: "write-fault",
-		Bound: "exhaustive: names {'', 'a', '>x y'} x seq lengths {0,1,2,79,80,81,160,161} (thorough every length 0..250) x every k in 0..len(output)+1; then random records with random k",
-		Rule:  "Write to a writer that accepts k bytes in total and then fails returns a non-nil error iff k < the number of bytes Write emits to a writer that never fails; no panic",
-		Gen:   vfGenWriteFault,
-		Run:   vfRunWriteFault,
+		Bound: "exhaustive: names {'', 'a', '>x y'} x seq lengths {0,1,2,79,80,81,160,161} (thorough every length 0..250) x every k in 0..len(output)+1; " +
+			"name 'a' x seq lengths {4097, 5000, 10000} x k in the last 4200 bytes of the output .. len(output)+1 (length 5000: every k; 4097 and 10000: every 5th k and every k in the last 256 bytes) and every 97th k before; then random records with random k",
+		Rule: "Write to a writer that accepts k bytes in total and then fails returns a non-nil error iff k < the number of bytes Write emits to a writer that never fails; no panic",
+		Gen:  vfGenWriteFault,
+		Run:  vfRunWriteFault,
 	},
 	{
 		Prop: "C11", Name: "total",
@@ -763,6 +765,9 @@ func vfRunRoundtrip(in map[string]any) vrResult {
 	return vrResult{OK: true, Trivial: len(recs) == 0}
 }
 
+// vfPercentTexts: texts that a writer using a field as a printf format would mangle.
+var vfPercentTexts = []string{"%", "50%", "%d", "%s%s", "100%%", "%!", "a%vb"}
+
 func vfGenRoundtrip(g *vrGen) {
 	complete := true
 	emit := func(recs []any) bool {
@@ -782,6 +787,12 @@ func vfGenRoundtrip(g *vrGen) {
 		emit([]any{map[string]any{"name": vrS("long"), "seq": vfPat("ACGTTGCAN", n)}})
 	}
 	emit([]any{map[string]any{"name": vfPat("nm >", 70000), "seq": vrS("ACGT")}})
+	// printf-verb look-alikes as name, as sequence, and as both
+	for _, w := range vfPercentTexts {
+		emit(vfRecsIn([]vfRec{{[]byte(w), []byte("ACGT")}}))
+		emit(vfRecsIn([]vfRec{{[]byte("r"), []byte(w)}}))
+		emit(vfRecsIn([]vfRec{{[]byte(w), bytes.Repeat([]byte(w), 30)}, {[]byte("next"), []byte("AC")}}))
+	}
 	{
 		var l []any
 		for _, n := range vfLens {
@@ -844,6 +855,19 @@ func vfRunLayout(in map[string]any) vrResult {
 	return vrResult{OK: true, Trivial: len(recs) == 0}
 }
 
+// vfBoundaryLens: the sequence lengths 3900..4100 and 7900..8100 (402 lengths):
+// a one-record text of 80-column lines whose size crosses one resp. two
+// 4096-byte buffer fills, at every alignment of its line ends to the boundary.
+func vfBoundaryLens() []int {
+	var out []int
+	for _, base := range []int{3900, 7900} {
+		for L := base; L <= base+200; L++ {
+			out = append(out, L)
+		}
+	}
+	return out
+}
+
 func vfGenLayout(g *vrGen) {
 	complete := true
 	emit := func(recs []any, widths, blank []int, crlf, fin bool) bool {
@@ -866,6 +890,12 @@ func vfGenLayout(g *vrGen) {
 			}
 		}
 		return true
+	}
+	// CRLF texts crossing one and two 4096-byte (bufio) boundaries at every
+	// alignment: every length shifts the CRs relative to the boundary. First, so
+	// that they always run.
+	for _, L := range vfBoundaryLens() {
+		emit([]any{map[string]any{"name": vrS("n"), "seq": vfPat("ACGTTGCAN", L)}}, []int{80}, nil, true, true)
 	}
 	emit([]any{map[string]any{"name": vrS("one line"), "seq": vfPat("ACGTTGCAN", 70000)}}, []int{100000}, nil, false, true)
 	emit([]any{map[string]any{"name": vrS("one line"), "seq": vfPat("ACGTTGCAN", 70000)},
@@ -1154,6 +1184,24 @@ func vfRunCRLF(in map[string]any) vrResult {
 		return vrResult{OK: true, Trivial: true, Observed: "outside the domain"}
 	}
 	lf := vfEncodeAll(recs, "\n")
+	if blank := vrInts(in["blank"]); len(blank) > 0 {
+		// blank[i mod len] extra empty lines after the i-th line (also after the last one)
+		for _, b := range blank {
+			if b < 0 || b > 1000 {
+				return vrResult{OK: true, Trivial: true, Observed: "blank count out of range"}
+			}
+		}
+		var out []byte
+		i := 0
+		for _, c := range lf {
+			out = append(out, c)
+			if c == '\n' {
+				out = append(out, bytes.Repeat([]byte{'\n'}, blank[i%len(blank)])...)
+				i++
+			}
+		}
+		lf = out
+	}
 	crlf := bytes.ReplaceAll(lf, []byte("\n"), []byte("\r\n"))
 	a, bad := vfAll(Reader(bytes.NewReader(lf)), len(recs)+10)
 	if bad != "" {
@@ -1180,14 +1228,46 @@ func vfGenCRLF(g *vrGen) {
 		return true
 	}
 	ok := true
+	// texts crossing one and two 4096-byte buffer fills at every alignment
+	for _, n := range vfBoundaryLens() {
+		ok = ok && emit([]any{map[string]any{"name": vrS("n"), "seq": vfPat("ACGTTGCAN", n)}})
+	}
 	for n := 0; n <= 170 && ok; n++ {
 		ok = emit([]any{map[string]any{"name": vrS("s"), "seq": vfPat("ACGTTGCAN", n)}})
+	}
+	// blank lines (in the CRLF text: CR LF CR LF) after every line, after some
+	// lines, and trailing only
+	withBlank := func(recs []any, blank []int) bool {
+		if g.Expired() {
+			complete = false
+			return false
+		}
+		g.Case(map[string]any{"records": recs, "blank": vrI(blank)})
+		return true
+	}
+	for _, l := range [][]vfRec{
+		{{[]byte("a"), []byte("ACGT")}},
+		{{[]byte("a"), nil}, {[]byte("b b"), []byte("G")}},
+		{{nil, nil}, {nil, []byte("T")}},
+		{{[]byte("w"), bytes.Repeat([]byte("ACGT"), 41)[:161]}, {[]byte("v"), bytes.Repeat([]byte("ACGT"), 20)}},
+	} {
+		for _, bl := range [][]int{{1}, {2}, {0, 1}, {1, 0}, {0, 2, 1}, {0, 0, 0, 0, 0, 0, 3}} {
+			ok = ok && withBlank(vfRecsIn(l), bl)
+		}
 	}
 	ok = ok && vfLists(vfSmallRecs(), 2, func(l []vfRec) bool { return emit(vfRecsIn(l)) })
 	g.Exhaustive(complete && ok)
 	for rnd := (&vfRnd{g: g}); rnd.more(); {
 		l := vfRandRecs(g.Rand, 5)
-		rnd.emit(map[string]any{"records": vfRecsIn(l)}, vfSize(l))
+		in := map[string]any{"records": vfRecsIn(l)}
+		if g.Rand.Intn(3) == 0 {
+			bl := make([]int, 1+g.Rand.Intn(4))
+			for i := range bl {
+				bl[i] = g.Rand.Intn(3)
+			}
+			in["blank"] = vrI(bl)
+		}
+		rnd.emit(in, vfSize(l))
 	}
 }
 
@@ -1426,6 +1506,27 @@ func vfGenWriteFault(g *vrGen) {
 	for _, name := range []string{"", "a", ">x y"} {
 		for _, n := range lens {
 			ok = ok && allK(vfRec{[]byte(name), bytes.Repeat([]byte("ACGTN"), 60)[:n]})
+		}
+	}
+	// long sequences (a writer that buffers internally must still report a fault
+	// that only its last flush meets): k in the last 4200 bytes of the output
+	// (and one past it; length 5000: every k, lengths 4097 and 10000: every 5th k
+	// and every k in the last 256 bytes), every 97th k before.
+	for _, n := range []int{5000, 4097, 10000} {
+		full := 3 + n + (n+79)/80 // '>' 'a' LF, the sequence, one LF per line of 80
+		enc := map[string]any{"name": vrS("a"), "seq": vfPat("ACGTN", n)}
+		for k := 0; k <= full+1 && ok; k++ {
+			if k < full-4200 && k%97 != 0 {
+				continue
+			}
+			if n != 5000 && k >= full-4200 && k < full-256 && k%5 != 0 {
+				continue
+			}
+			if g.Expired() {
+				complete, ok = false, false
+				break
+			}
+			g.Case(map[string]any{"record": enc, "k": k})
 		}
 	}
 	g.Exhaustive(complete && ok)
